@@ -116,3 +116,27 @@ package upstream
 //@   ensures ret(tcpDial, 0, 1) == nil ==> calls(tlsClient) == 1 && calls(tlsHandshake) == 1 && arg(tlsHandshake, 0, 0) == ret(tlsClient, 0)
 //@   ensures ret(tcpDial, 0, 1) == nil && ret(tlsHandshake, 0) != nil ==> result_1 != nil && result_0 == nil && calls(tlsClose) == 1 && arg(tlsClose, 0, 0) == ret(tlsClient, 0)
 //@   ensures ret(tcpDial, 0, 1) == nil && ret(tlsHandshake, 0) == nil ==> result_1 == nil && result_0 != nil && calls(tlsClose) == 0
+
+// The pipelined TCP / DoT connection makers (C09): every connection is created with the SAME limit
+// the transport uses while the connection is still dialing (pipelineConcurrentLimit = 64), with
+// TCP framing — so queries queued during the dial are not refused once the dial succeeds.
+//@ func paramfn:NewUpstream$7.dialNetConn
+//@   log dialNetConn
+//@   modifies *
+//@   ensures (result_0 != nil) != (result_1 != nil)
+//@ func NewUpstream$7 [C09]
+//@   captured to.MaxConcurrentQuery == 64 && to.WithLengthHeader
+//@   modifies *
+//@   ensures calls(dialNetConn) == 1
+//@   ensures ret(dialNetConn, 0, 1) != nil ==> result_1 != nil && calls(NewDnsConn) == 0
+//@   ensures ret(dialNetConn, 0, 1) == nil ==> result_1 == nil && calls(NewDnsConn) == 1 && arg(NewDnsConn, 0, 0).MaxConcurrentQuery == 64 && arg(NewDnsConn, 0, 0).WithLengthHeader && arg(NewDnsConn, 0, 1) == ret(dialNetConn, 0, 0)
+//@ func paramfn:NewUpstream$9.dialNetConn
+//@   log dialNetConn
+//@   modifies *
+//@   ensures (result_0 != nil) != (result_1 != nil)
+//@ func NewUpstream$9 [C09]
+//@   captured to.MaxConcurrentQuery == 64 && to.WithLengthHeader
+//@   modifies *
+//@   ensures calls(dialNetConn) == 1
+//@   ensures ret(dialNetConn, 0, 1) != nil ==> result_1 != nil && calls(NewDnsConn) == 0
+//@   ensures ret(dialNetConn, 0, 1) == nil ==> result_1 == nil && calls(NewDnsConn) == 1 && arg(NewDnsConn, 0, 0).MaxConcurrentQuery == 64 && arg(NewDnsConn, 0, 0).WithLengthHeader && arg(NewDnsConn, 0, 1) == ret(dialNetConn, 0, 0)
